@@ -245,6 +245,46 @@ func constStringArg(v ssa.Value) (string, bool) {
 
 func init() {
 	plugins["privileges"] = pluginPrivileges
+	plugins["handler-contract"] = pluginHandlerContract
+}
+
+// pluginHandlerContract runs one handler in mode A (same abstractions as the privilege
+// plug-in) and keeps the obligations generated from its own contract: loop invariants and
+// `before call ... assert` site assertions.
+func pluginHandlerContract(r *Run, it Item) {
+	key := it.Func
+	if r.Eng.contracts[key] == nil {
+		r.Errors = append(r.Errors, key+": no contract found for a function of the plan")
+		return
+	}
+	opq := map[string]bool{}
+	for k, v := range handlerOpaque {
+		opq[k] = v
+	}
+	delete(opq, "hotline.NewAccount")
+	fr := r.Eng.verifyFuncOpts(key, RunOpts{Trace: true, Depth: 3, Over: handlerOver(), Opaque: opq, Setup: handlerSetup})
+	r.results[key] = fr
+	if fr.Err != "" {
+		r.Errors = append(r.Errors, key+": "+fr.Err)
+		return
+	}
+	r.Funcs = append(r.Funcs, key)
+	var keep []*Obligation
+	n := 0
+	for _, o := range fr.VC.obls {
+		if o.Cover || kindOK(it.Kinds, o.Kind) {
+			keep = append(keep, o)
+			if !o.Cover {
+				n++
+			}
+		}
+	}
+	if n == 0 {
+		r.Errors = append(r.Errors, key+": the contract generated no obligation (site or loop not found)")
+	}
+	fr.VC.obls = keep
+	r.pending = append(r.pending, pendingVC{fr.VC, r.Prop + "_" + key})
+	r.Notes = append(r.Notes, fr.VC.notes...)
 }
 
 func pluginPrivileges(r *Run, it Item) {
